@@ -26,6 +26,13 @@ package xrespondent
 //@   loop 2 invariant !finish ==> forall(j, 0, hops-1, body0[4*j] < 128)
 //@   loop 2 invariant finish ==> hops >= 2 && body0[4*(hops-2)] >= 128 && forall(j, 0, hops-2, body0[4*j] < 128)
 //@   at select#1 assert selidx == 0 ==> hops >= 2 && hops-1 <= ttl && 4*(hops-1) <= len(body0) && body0[4*(hops-2)] >= 128 && forall(j, 0, hops-2, body0[4*j] < 128)
+//@   ghost hdr0 = result.Header at call:RecvMsg#1
+//@   loop 2 invariant len(m.Header) == 4 + len(hdr0) + 4*(hops-1)
+//@   loop 2 invariant be32(m.Header) == p.p.ID()
+//@   loop 2 invariant forall(j, 0, 4*(hops-1), m.Header[4+len(hdr0)+j] == body0[j])
+//@   loop 2 invariant fresh_arr(m.Header, "call:RecvMsg#1")
+//@   at select#1 assert selidx == 0 ==> be32(m.Header) == p.p.ID() && len(m.Header) == 4 + len(hdr0) + 4*(hops-1) && forall(j, 0, 4*(hops-1), m.Header[4+len(hdr0)+j] == body0[j])
+//@   at select#1 assert selidx == 0 ==> fresh_arr(m.Header, "call:RecvMsg#1")
 //@   at call:Free#2 assert forall(j, 0, hops-1, body0[4*j] < 128) && hops-1 >= ttl
 //@   at call:Free#3 assert forall(j, 0, hops-2, body0[4*j] < 128) && len(body0) < 4*(hops-1)
 //@
